@@ -1111,7 +1111,10 @@ func (x *e4Run) execOp(op e4Op) {
 			x.sawRefusal = true
 			parts := strings.Split(op.P, "/")
 			for i := range parts {
-				x.resync(strings.Join(parts[:i+1], "/"))
+				// only what this call may have created: a directory that existed before keeps its children in the model
+				if pre := strings.Join(parts[:i+1], "/"); x.m.Lookup(pre) == nil {
+					x.resync(pre)
+				}
 			}
 			return
 		}
@@ -1421,9 +1424,31 @@ func (x *e4Run) execOp(op e4Op) {
 				x.sawRefusal = true
 				x.r.Class("refused:fill")
 				x.resync(op.P)
+				n = x.m.Lookup(op.P)
 				break
 			}
 			created = true
+		}
+		// top up with ever smaller appends until not even one byte fits: only then is the volume really full
+		// (the chunk that was refused may have been thousands of blocks long)
+		tries := 0
+		for sz := op.Chunk / 2; sz >= 1 && n != nil && !n.Dir && created && !x.r.Failed() && tries < 200; tries++ {
+			data := mk.Content{Seed: op.D.Seed*1000 + 900 + uint32(sz%97), Len: sz}.Bytes()
+			old := len(n.Data)
+			n.WriteAt(int64(old), data)
+			if err := x.openWrite(op.P, os.O_RDWR|os.O_APPEND, 0, data, false); err != nil {
+				if x.r.Failed() {
+					return
+				}
+				n.Data = n.Data[:old]
+				x.resync(op.P)
+				if n = x.m.Lookup(op.P); n == nil {
+					break
+				}
+				sz /= 2
+				continue
+			}
+			x.r.Class("fill-topup")
 		}
 	}
 }
